@@ -917,8 +917,8 @@ class TypeBlocks(ContainerOperand):
                     if b.size == 1 and size_one_unity and not skipna:
                         # No function call is necessary; if skipna could turn NaN to zero.
                         end = pos + 1
-                        # Can assign an array, even 2D, as an element if size is 1
-                        out[pos] = b
+                        # An array cannot be assigned as an element, even if size is 1: take the one value of the 1D or 2D block
+                        out[pos] = b.flat[0]
                     elif b.ndim == 1:
                         end = pos + 1
                         out[pos] = func(array=b, axis=axis)
